@@ -1,26 +1,27 @@
 //go:build verif && verifenc
 
-// encdump: conformance driver for the encoder models (spec/sym/PDFTextEnc, AztecHLEnc, Code128Enc).
-// Enumerates every string prefix + suffix with |suffix| <= maxlen over the given alphabet - the state space of the
-// corresponding MC_* model - calls the real high-level encoder through the verif accessors and writes one ndjson event
-// per string: {"sym","content":[...],"out":[...],"ok":bool}.
+// encdump: conformance driver for the encoder models (spec/sym/PDFTextEnc, AztecHLEnc, AztecSel, Code128Enc, DMEnc, QREnc, PDFDims).
+// Enumerates every string prefix + suffix with |suffix| <= maxlen over the given alphabet - the state space of the corresponding MC_* model -
+// calls the real encoder stage through the verif accessors and writes one ndjson event per string (see spec/trace/TraceEnc.tla).
+// One family per build (tags enc_qr, enc_pdf, enc_aztec, enc_dm, enc_c128): a family whose accessor no longer builds against the tree under
+// test does not take the others with it.
 package main
 
 import (
 	"bufio"
-	"encoding/json"
 	"flag"
 	"fmt"
 	"os"
 	"strconv"
 	"strings"
-
-	"github.com/boombuler/barcode/aztec"
-	"github.com/boombuler/barcode/code128"
-	"github.com/boombuler/barcode/datamatrix"
-	"github.com/boombuler/barcode/pdf417"
-	"github.com/boombuler/barcode/qr"
 )
+
+// string families: sym -> encoder stage; special families: sym -> whole-run function
+var encoders = map[string]func(content []int) (out []int, ok bool){}
+var perString = map[string]func(w *bufio.Writer, cur []int){}
+var wholeRun = map[string]func(w *bufio.Writer, in string){}
+
+var padFlag = flag.Int("pad", 0, "dm: number of pad codewords to append")
 
 func ints(s string) []int {
 	var out []int
@@ -50,164 +51,17 @@ func writeInts(w *bufio.Writer, xs []int) {
 	w.WriteByte(']')
 }
 
-// harness numbering: level 0..3 = L, M, Q, H; mode 0 Auto, 1 Numeric, 2 AlphaNumeric, 3 Unicode (as cmd/drive)
-func encodeQR(content string, level, mode int) (out []int, version int, ok bool) {
-	defer func() {
-		if r := recover(); r != nil {
-			out, version, ok = []int{-1}, 0, false
-		}
-	}()
-	lv := []qr.ErrorCorrectionLevel{qr.L, qr.M, qr.Q, qr.H}[level]
-	md := []qr.Encoding{qr.Auto, qr.Numeric, qr.AlphaNumeric, qr.Unicode}[mode]
-	bits, v, err := qr.VerifBitStream(content, lv, md)
-	if err != nil {
-		return nil, 0, false
-	}
-	out = make([]int, len(bits))
-	for i, x := range bits {
-		if x {
-			out[i] = 1
-		}
-	}
-	return out, v, true
-}
-
-// azsel: for every (payload, percentage) of the input the automatic size choice, and explicit requests for the sizes around it, made through
-// the public API, together with the high-level bit stream the choice is based on (packed into bytes, most significant bit first).
-func azsel(w *bufio.Writer, in string) {
-	type size struct{ width, req int }
-	var sizes []size
-	for L := 1; L <= 4; L++ {
-		sizes = append(sizes, size{11 + 4*L, -L})
-	}
-	for L := 1; L <= 32; L++ {
-		b := 14 + 4*L
-		sizes = append(sizes, size{b + 1 + 2*((b/2-1)/15), L})
-	}
-	f, err := os.Open(in)
-	if err != nil {
-		fmt.Fprintln(os.Stderr, err)
-		os.Exit(2)
-	}
-	sc := bufio.NewScanner(f)
-	sc.Buffer(make([]byte, 1<<20), 1<<26)
-	for sc.Scan() {
-		var j struct {
-			Content []int `json:"content"`
-			Pct     int   `json:"pct"`
-		}
-		if err := json.Unmarshal(sc.Bytes(), &j); err != nil {
-			fmt.Fprintln(os.Stderr, err)
-			os.Exit(2)
-		}
-		data := make([]byte, len(j.Content))
-		for i, c := range j.Content {
-			data[i] = byte(c)
-		}
-		bits := aztec.VerifHighLevel(data)
-		packed := make([]int, (len(bits)+7)/8)
-		for i, b := range bits {
-			if b {
-				packed[i/8] |= 0x80 >> uint(i%8)
-			}
-		}
-		one := func(req int) (kind string, width int) {
-			defer func() {
-				if r := recover(); r != nil {
-					kind, width = "panic", 0
-				}
-			}()
-			bc, err := aztec.Encode(append([]byte(nil), data...), j.Pct, req)
-			if err != nil || bc == nil {
-				return "error", 0
-			}
-			return "ok", bc.Bounds().Dx()
-		}
-		emit := func(req int, kind string, width int) {
-			w.WriteString(`{"sym":"azsel","content":`)
-			writeInts(w, j.Content)
-			w.WriteString(`,"p":[` + strconv.Itoa(j.Pct) + "," + strconv.Itoa(req) + `],"hln":` + strconv.Itoa(len(bits)) + `,"hlb":`)
-			writeInts(w, packed)
-			w.WriteString(`,"kind":"` + kind + `","w":` + strconv.Itoa(width) + "}\n")
-		}
-		kind, aw := one(0)
-		emit(0, kind, aw)
-		for _, s := range sizes {
-			if kind != "ok" || (s.width >= aw-12 && s.width <= aw+4) {
-				if kind == "ok" || s.req == 32 || s.req == -4 {
-					k2, w2 := one(s.req)
-					emit(s.req, k2, w2)
-				}
-			}
-		}
-	}
-}
-
-var padFlag = flag.Int("pad", 0, "dm: number of pad codewords to append")
-
-func encode(sym string, content []int) (out []int, ok bool) {
+func safe(f func(content []int) ([]int, bool), content []int) (out []int, ok bool) {
 	defer func() {
 		if r := recover(); r != nil {
 			out, ok = []int{-1}, false
 		}
 	}()
-	switch sym {
-	case "pdf":
-		b := make([]byte, len(content))
-		for i, c := range content {
-			b[i] = byte(c)
-		}
-		cws, err := pdf417.VerifHighLevel(string(b))
-		if err != nil {
-			return nil, false
-		}
-		return cws, true
-	case "aztec":
-		b := make([]byte, len(content))
-		for i, c := range content {
-			b[i] = byte(c)
-		}
-		bits := aztec.VerifHighLevel(b)
-		out = make([]int, len(bits))
-		for i, x := range bits {
-			if x {
-				out[i] = 1
-			}
-		}
-		return out, true
-	case "dm":
-		b := make([]byte, len(content))
-		for i, c := range content {
-			b[i] = byte(c)
-		}
-		cws := datamatrix.VerifEncodeText(string(b), *padFlag)
-		out = make([]int, len(cws))
-		for i, v := range cws {
-			out[i] = int(v)
-		}
-		return out, true
-	case "c128":
-		r := make([]rune, len(content))
-		for i, c := range content {
-			r[i] = rune(c)
-		}
-		vals, ok := code128.VerifIndexList(string(r))
-		if !ok {
-			return nil, false
-		}
-		out = make([]int, len(vals))
-		for i, v := range vals {
-			out[i] = int(v)
-		}
-		return out, true
-	}
-	fmt.Fprintln(os.Stderr, "unknown sym", sym)
-	os.Exit(2)
-	return nil, false
+	return f(content)
 }
 
 func main() {
-	sym := flag.String("sym", "", "pdf | aztec | c128 | dm | qr | pdfdims | azsel")
+	sym := flag.String("sym", "", "pdf | pdfdims | aztec | azsel | c128 | dm | qr (whichever this build contains)")
 	alpha := flag.String("alphabet", "", "comma separated byte / rune values")
 	maxlen := flag.Int("maxlen", 3, "maximal suffix length")
 	prefix := flag.String("prefix", "", "comma separated fixed prefix")
@@ -220,70 +74,41 @@ func main() {
 		os.Exit(2)
 	}
 	w := bufio.NewWriterSize(f, 1<<20)
-	if *sym == "azsel" {
-		azsel(w, *inp)
+	defer func() {
 		w.Flush()
 		f.Close()
+	}()
+	if run, ok := wholeRun[*sym]; ok {
+		run(w, *inp)
 		return
 	}
-	if *sym == "pdfdims" { // every number of data codewords x every security level: the shape the real chooser returns
-		for m := 0; m <= 930; m++ {
-			for lv := 0; lv <= 8; lv++ {
-				k := 2 << uint(lv)
-				cols, rows := pdf417.VerifDimensions(m, k)
-				fmt.Fprintf(w, "{\"sym\":\"pdfdims\",\"m\":%d,\"lv\":%d,\"k\":%d,\"cols\":%d,\"rows\":%d}\n", m, lv, k, cols, rows)
-			}
-		}
-		w.Flush()
-		f.Close()
-		return
+	enc, isEnc := encoders[*sym]
+	per, isPer := perString[*sym]
+	if !isEnc && !isPer {
+		fmt.Fprintln(os.Stderr, "family not in this build:", *sym)
+		os.Exit(2)
 	}
 	A := ints(*alpha)
 	pre := ints(*prefix)
 	cur := append([]int{}, pre...)
 	var rec func()
 	rec = func() {
-		if *sym == "qr" {
-			b := make([]byte, len(cur))
-			for i, c := range cur {
-				b[i] = byte(c)
-			}
-			for level := 0; level < 4; level++ {
-				for mode := 0; mode < 4; mode++ {
-					out, v, ok := encodeQR(string(b), level, mode)
-					w.WriteString(`{"sym":"qr","content":`)
-					writeInts(w, cur)
-					w.WriteString(`,"p":[` + strconv.Itoa(level) + "," + strconv.Itoa(mode) + `],"v":` + strconv.Itoa(v) + `,"out":`)
-					writeInts(w, out)
-					if ok {
-						w.WriteString(`,"ok":true}` + "\n")
-					} else {
-						w.WriteString(`,"ok":false}` + "\n")
-					}
-				}
-			}
-			if len(cur)-len(pre) >= *maxlen {
-				return
-			}
-			for _, a := range A {
-				cur = append(cur, a)
-				rec()
-				cur = cur[:len(cur)-1]
-			}
-			return
-		}
-		out, ok := encode(*sym, cur)
-		w.WriteString(`{"sym":"` + *sym + `","content":`)
-		writeInts(w, cur)
-		w.WriteString(`,"out":`)
-		writeInts(w, out)
-		if *sym == "dm" {
-			w.WriteString(`,"pad":` + strconv.Itoa(*padFlag))
-		}
-		if ok {
-			w.WriteString(`,"ok":true}` + "\n")
+		if isPer {
+			per(w, cur)
 		} else {
-			w.WriteString(`,"ok":false}` + "\n")
+			out, ok := safe(enc, cur)
+			w.WriteString(`{"sym":"` + *sym + `","content":`)
+			writeInts(w, cur)
+			w.WriteString(`,"out":`)
+			writeInts(w, out)
+			if *sym == "dm" {
+				w.WriteString(`,"pad":` + strconv.Itoa(*padFlag))
+			}
+			if ok {
+				w.WriteString(`,"ok":true}` + "\n")
+			} else {
+				w.WriteString(`,"ok":false}` + "\n")
+			}
 		}
 		if len(cur)-len(pre) >= *maxlen {
 			return
@@ -295,6 +120,4 @@ func main() {
 		}
 	}
 	rec()
-	w.Flush()
-	f.Close()
 }
